@@ -10,7 +10,7 @@ schema(
     ORDER_TYPE=ATOM,  # OrderTypes.LIMIT / LIMIT_ON_CLOSE / MARKET_ON_CLOSE (class attribute of the concrete class)
     EXCHANGE=ATOM,
     price=Opt(REAL),
-    size=Opt(REAL),
+    size=Opt(MONEY),  # D1: sizes are on the penny grid (OrderValidation refuses anything else, C17)
     liability=Opt(REAL),
     persistence_type=Opt(ATOM),
     time_in_force=Opt(ATOM),
@@ -78,18 +78,18 @@ schema(
 schema(
     "SimulatedOrder",
     order=Ref("BetfairOrder"),  # only Betfair orders are simulated (BetdaqOrder.current_order never uses it)
-    size_matched=REAL,
+    size_matched=MONEY,
     average_price_matched=REAL,
     matched=ListOf(Ref("Fragment")),
-    size_cancelled=REAL,
-    size_lapsed=REAL,
-    size_voided=REAL,
+    size_cancelled=MONEY,
+    size_lapsed=MONEY,
+    size_voided=MONEY,
     market_version=Opt(INT),
     _piq=REAL,
     _bsp_reconciled=BOOL,
 )
-record("Fragment", REAL, REAL, REAL)  # [publish_time, price, size]
-schema("PriceSize", price=REAL, size=REAL)  # {"price": p, "size": s} entries of the book ladders
+record("Fragment", REAL, REAL, MONEY)  # [publish_time, price, size]
+schema("PriceSize", price=REAL, size=MONEY)  # {"price": p, "size": s} entries of the book ladders
 
 ST_PENDING = "OrderStatus.PENDING"
 
